@@ -174,7 +174,8 @@ def merge_counts(dst, src):
 # ---------------------------------------------------------------------------------------------
 # the check of one property
 # ---------------------------------------------------------------------------------------------
-def check_property(pid, tier, base_seed, out=sys.stdout, write_evidence=True, extra_overrides=()):
+def check_property(pid, tier, base_seed, out=sys.stdout, write_evidence=True, extra_overrides=(), replay_dir=None):
+    if os.environ.get('VERIF_SCRATCH'): write_evidence = False; replay_dir = replay_dir or os.environ['VERIF_SCRATCH']
     spec = PROPS[pid]
     t0 = time.time()
     bdir = simbuild.ensure()
@@ -241,7 +242,8 @@ def check_property(pid, tier, base_seed, out=sys.stdout, write_evidence=True, ex
     classes = {}
     for v in viol: resolve_pc(bdir, v[1], v[3])
     for v in viol: classes.setdefault((v[3].get('oracle'), v[1], v[3].get('crash_func', '')), []).append(v)
-    os.makedirs(os.path.join(VERIF, 'replays'), exist_ok=True)
+    replay_dir = replay_dir or os.path.join(VERIF, 'replays')
+    os.makedirs(replay_dir, exist_ok=True)
     for (oracle, b, _cf), vs in sorted(classes.items(), key=lambda kv: str(kv[0])):
         fam, b, sd, r = vs[0]
         kn = match_known(known, pid, r)
@@ -263,7 +265,7 @@ def check_property(pid, tier, base_seed, out=sys.stdout, write_evidence=True, ex
             continue
         mn = Minimiser(bdir, b, plan, oracle, budget_runs=spec.get('min_runs', 250), budget_s=spec.get('min_s', 60))
         small = mn.run()
-        rp = os.path.join(VERIF, 'replays', '%s-%s-%s-%d.json' % (pid, oracle, b, sd))
+        rp = os.path.join(replay_dir, '%s-%s-%s-%d.json' % (pid, oracle, b, sd))
         json.dump({'property': pid, 'family': fam, 'build': b, 'seed': sd, 'plan': small}, open(rp, 'w'), indent=0)
         code, fin = simrun(bdir, b, ['--replay', rp])
         if not (fin.get('status') == 'violation' and fin.get('oracle') == oracle):
